@@ -6,6 +6,7 @@ import vlib
 from vlib import CheckError
 
 CLAUSE = {1: "envelope", 2: "spaced-refused", 3: "gc-visible", 4: "not-independent", 5: "concurrent",
+          15: "concurrent-callers-same-entry-spurious-refusal",
           9: "concurrent-first-messages-envelope", 10: "burst-during-collection-pass-envelope",
           6: "idle-entry-not-forgotten", 7: "call-does-not-return", 8: "idle-entry-not-forgotten", 11: "envelope", 12: "spaced-refused", 14: "not-independent"}
 CONC_SIG = "concurrent-new-address-insert-race"
@@ -21,7 +22,7 @@ class Prop:
                "just-forgotten address released together; bursts fired while the pass is held; envelope judged by Spec.envelope_chk)",
                "liveness(real collector goroutine of Init: table emptied after an idle gap, then first inserts from concurrent callers with "
                "the clock read inside Allow's insert section held for more than one ticker period; every Allow and Close returns under a watchdog)",
-               "device(real device under load, cookie exchange done, one address flooding while another sends 60 ms apart, then the flood "
+               "device(real device under load, cookie exchange done, one address flooding while its neighbours (last byte, byte 8, zone only, IPv4-mapped form) and a distant address send 60 ms apart, then the flood "
                "continues across a UAPI listen_port change and Down/Up, v4 and v6; "
                "processed/refused per message judged by Spec envelope/spaced/independence checkers)"]
     rule = ("arrival histories from one PRNG under a virtual clock: 2-8 addresses (v4, v6, v4-mapped v6, zoned link-local incl. the same "
